@@ -66,9 +66,13 @@ struct Verdict {
 }
 
 /// Is `got` a legal answer sequence for query `q` whose full (pre-LIMIT) answer is `full`?
-fn legal(q: &Select, got: &[Row], full: &[Row], ctx: &mut Ctx) -> Verdict {
+fn legal(q: &Select, got: &[Row], full: &[Row], sorted_unprojected: &[Row], ctx: &mut Ctx) -> Verdict {
     let g = to_multiset(got);
     let f = to_multiset(full);
+    let cols = q.columns();
+    if q.order.iter().any(|(k, _)| !cols.contains(k)) {
+        return legal_with_hidden_keys(q, got, &g, &f, full.len(), sorted_unprojected, &cols, ctx);
+    }
     match q.limit {
         None => {
             if g != f {
@@ -112,6 +116,55 @@ fn legal(q: &Select, got: &[Row], full: &[Row], ctx: &mut Ctx) -> Verdict {
                 _ => {}
             }
         }
+    }
+    Verdict { ok: true, why: String::new() }
+}
+
+/// ORDER BY with a key that is not projected (never together with DISTINCT or aggregates):
+/// the solutions sorted by the keys fall into runs of key-equal solutions; the returned
+/// sequence must be, run after run, a permutation of the run's projected rows (the last
+/// run may be cut by LIMIT).
+#[allow(clippy::too_many_arguments)]
+fn legal_with_hidden_keys(q: &Select, got: &[Row], g: &BTreeMap<String, usize>, f: &BTreeMap<String, usize>, full_len: usize, sorted: &[Row], cols: &[String], ctx: &mut Ctx) -> Verdict {
+    let want = q.limit.map(|n| n.min(full_len)).unwrap_or(full_len);
+    if got.len() != want {
+        return Verdict { ok: false, why: format!("{} rows returned, {} expected (full answer has {})", got.len(), want, full_len) };
+    }
+    if q.limit.is_none() && g != f {
+        return Verdict { ok: false, why: "solution multiset differs".into() };
+    }
+    if !sub_multiset(g, f) {
+        return Verdict { ok: false, why: "LIMIT: returned rows are not a sub-multiset of the full answer".into() };
+    }
+    if sorted.len() != full_len {
+        return Verdict { ok: true, why: String::new() }; // (cannot happen without DISTINCT)
+    }
+    let project = |r: &Row| -> Row { r.iter().filter(|(k, _)| cols.contains(k)).map(|(k, v)| (k.clone(), v.clone())).collect() };
+    let mut at = 0usize;
+    let mut i = 0usize;
+    while i < sorted.len() && at < got.len() {
+        let mut j = i + 1;
+        while j < sorted.len() {
+            match cmp_rows(&sorted[j - 1], &sorted[j], &q.order) {
+                Some(std::cmp::Ordering::Equal) => j += 1,
+                Some(_) => break,
+                None => {
+                    ctx.count("order_pairs_of_mixed_kind_not_judged", 1);
+                    return Verdict { ok: true, why: String::new() };
+                }
+            }
+        }
+        let run: Vec<Row> = sorted[i..j].iter().map(project).collect();
+        let take = run.len().min(got.len() - at);
+        let part = to_multiset(&got[at..at + take]);
+        let runm = to_multiset(&run);
+        let fits = if take == run.len() { part == runm } else { sub_multiset(&part, &runm) };
+        if !fits {
+            return Verdict { ok: false, why: "rows not in the order given by an ORDER BY key that is not projected".into() };
+        }
+        ctx.count("runs_of_key_equal_solutions_checked_under_a_hidden_order_key", 1);
+        at += take;
+        i = j;
     }
     Verdict { ok: true, why: String::new() }
 }
@@ -181,7 +234,7 @@ fn judge(db: &mut kolibrie::sparql_database::SparqlDatabase, snap: &ds::Dataset,
             .collect()
     };
     let full = canon(&ans.full);
-    let v = legal(q, &got, &full, ctx);
+    let v = legal(q, &got, &full, &ans.sorted_unprojected, ctx);
     if v.ok {
         return Judged::Held { full: full.len(), rows };
     }
@@ -189,7 +242,7 @@ fn judge(db: &mut kolibrie::sparql_database::SparqlDatabase, snap: &ds::Dataset,
     let mut cause = "unattributed".to_string();
     for (name, sem) in VARIANTS.iter() {
         if let Ok(a2) = Ev::with_sem(snap, q, *sem).eval_select_inner(q, &None) {
-            if legal(q, &got, &canon(&a2.full), ctx).ok {
+            if legal(q, &got, &canon(&a2.full), &a2.sorted_unprojected, ctx).ok {
                 cause = name.to_string();
                 break;
             }
@@ -198,7 +251,7 @@ fn judge(db: &mut kolibrie::sparql_database::SparqlDatabase, snap: &ds::Dataset,
     if cause == "unattributed" {
         let all = Sem { error_is_false: true, non_numeric_is_zero: true, bind_unbound_is_empty: true, avg_of_nothing_is_unbound: true, graph_variable_prebound: true };
         if let Ok(a2) = Ev::with_sem(snap, q, all).eval_select_inner(q, &None) {
-            if legal(q, &got, &canon(&a2.full), ctx).ok {
+            if legal(q, &got, &canon(&a2.full), &a2.sorted_unprojected, ctx).ok {
                 cause = "several_lexical_readings_of_expression_errors_combined".to_string();
             }
         }
@@ -304,6 +357,7 @@ fn run(ctx: &mut Ctx) {
             if big {
                 g.max_depth = 2;
             }
+            g.hidden_order_keys = true;
             let (q, _) = g.gen_select(0, true);
             let features: Vec<String> = g.features.iter().cloned().collect();
             let style = random_style(&mut rq);
